@@ -1,0 +1,12 @@
+//go:build verif
+
+package rtsp
+
+// VerifSetServerCommandSessionWriteChanSize sets the size of the asynchronous write queue of the
+// command connection of every ServerCommandSession created from now on and returns the previous
+// value (back-pressure tests of interleaved RTP).
+func VerifSetServerCommandSessionWriteChanSize(n int) int {
+	old := serverCommandSessionWriteChanSize
+	serverCommandSessionWriteChanSize = n
+	return old
+}
